@@ -3,6 +3,7 @@ import Hertz.Proofs.TieP1
 import Hertz.Proofs.TieP2
 import Hertz.Proofs.TieP3
 import Hertz.Proofs.TieP4
+import Hertz.Model.Http1.RespRead
 /-!
 # Tie by translation + proof
 
@@ -160,5 +161,28 @@ TODO-OPEN
 -/
 example : Gen.Funcs.appendUint [120] 1203 = .ok [120, 49, 50, 48, 51] := by decide +kernel
 example : Gen.Funcs.appendUint [] (-1) = .error .panic := by decide +kernel
+
+/-- `resp.isInterim` (the interim status codes `ReadHeaders` skips, `/repo` 8ec4dd8) as written in the source = the model's
+`RespRead.isInterim` the theorems `interim_skipped` / `interims_skipped` of C11 speak about, for every status code a
+response head can carry (`status` is a `Nat` in the model) -/
+theorem gen_isInterim_eq_model (code : Nat) :
+    Gen.Funcs.isInterim (code : Int) = .ok (H1.RespRead.isInterim code) := by
+  unfold Gen.Funcs.isInterim H1.RespRead.isInterim
+  congr 1
+  have h100 : (((code : Int) == (100 : Int)) : Bool) = (code == 100) := by
+    by_cases e : code = 100
+    · subst e; rfl
+    · rw [beq_eq_false_iff_ne.mpr e, beq_eq_false_iff_ne.mpr (by omega)]
+  have h102 : (((code : Int) == (102 : Int)) : Bool) = (code == 102) := by
+    by_cases e : code = 102
+    · subst e; rfl
+    · rw [beq_eq_false_iff_ne.mpr e, beq_eq_false_iff_ne.mpr (by omega)]
+  have h103 : (((code : Int) == (103 : Int)) : Bool) = (code == 103) := by
+    by_cases e : code = 103
+    · subst e; rfl
+    · rw [beq_eq_false_iff_ne.mpr e, beq_eq_false_iff_ne.mpr (by omega)]
+  rw [h100, h102, h103]
+
+example : Gen.Funcs.isInterim 103 = .ok true ∧ Gen.Funcs.isInterim 101 = .ok false := by decide
 
 end Hertz.Props.Tie
